@@ -86,6 +86,11 @@ WellFormed(m) ==
                     [] OTHER    -> IF d = 0 THEN 0 ELSE -1
   IN F[Len(m)] = 0
 
+\* IsAny with one reference is Is (relation between two recorded results, for every
+\* reference of the pool; also after hops, where the references are older objects)
+ReportAny1(ev) ==
+  Chk(ev.obs.any1bad = <<>>, ev, "isany1", "verdict", {"C02", "C08"}, <<>>, ev.obs.any1bad)
+
 Renderings == {"rv", "rpv", "rs"}
 ReportOuts(ev, v, tn) ==
   LET x == ev.obs.outs
@@ -137,6 +142,7 @@ ReportFmt(ev, v, tn) ==
   /\ Chk(~lib \/ f.badVerb = <<>>, ev, "fmt.otherverb", "verdict", {"C09"}, <<>>, f.badVerb)
   /\ Chk(f.badVerbF = <<>>, ev, "fmt.otherverbF", "verdict", {"C09"}, <<>>, f.badVerbF)
   /\ Chk(f.goSyntax, ev, "fmt.gosyntax", "verdict", {"C09"}, TRUE, FALSE)
+  /\ Chk(~lib \/ f.goSyntaxD, ev, "fmt.gosyntaxD", "verdict", {"C09"}, TRUE, FALSE)
   /\ IF lib THEN CheckPV(ev, "pv", f.pv, v) ELSE TRUE
   /\ CheckPV(ev, "pvf", f.pvf, v)
 
@@ -189,6 +195,7 @@ ReportBuild(ev, new, tn) ==
   /\ IF o.nil \/ IsNil(v) THEN TRUE
      ELSE
      /\ ReportOuts(ev, v, tn)
+     /\ ReportAny1(ev)
      /\ IF tn.dv THEN TRUE ELSE ReportStd(ev, v, new, TRUE)
      /\ IF "fmt" \in DOMAIN o THEN ReportFmt(ev, v, tn) /\ ReportRep(ev, v) ELSE TRUE
      \* text is predicted for regular strings only (C10); otherwise conformance
@@ -264,6 +271,7 @@ ReportHop(ev, base, new, tn) ==
   /\ IF o.nil \/ IsNil(v) \/ p.nil THEN TRUE
      ELSE
      /\ ReportOuts(ev, v, tn)
+     /\ ReportAny1(ev)
      /\ IF tn.dv THEN TRUE ELSE ReportStd(ev, v, base, FALSE)
      /\ IF "fmt" \in DOMAIN o /\ ~tn.dv THEN ReportFmt(ev, v, tn) /\ ReportRep(ev, v) ELSE TRUE
      /\ LET sites == IF tn.h \/ tn.dv THEN {} ELSE DiffSites(p.tree, o.tree) IN
